@@ -35,6 +35,7 @@ var AttackNames = []struct {
 	{"acc-self", []int{4, 8}},
 	{"acc-range", []int{4, 8}},
 	{"acc-none", []int{4, 8}},
+	{"acc-quiet", []int{4, 8}}, // the (justified) accusation against Target is withheld: an accomplice keeps quiet
 	{"pts-short", []int{7}},
 	{"pts-long", []int{7}},
 	{"pts-mutate", []int{7}},
@@ -46,6 +47,7 @@ var AttackNames = []struct {
 	{"rev-self", []int{10}},
 	{"rev-range", []int{10}},
 	{"rev-none", []int{10}},
+	{"rev-wrong-for", []int{10}}, // a key that is NOT the one published in phase 1 is revealed for Target
 }
 
 // offsetPoly returns the coefficients (lowest first, length t+1) of val * prod_{i in set} (x - i).
@@ -217,6 +219,8 @@ func (r *runner) apply(a Attack, c int, msgs []SymMsg) []SymMsg {
 		})
 	case "acc-none":
 		return each("acc", func(m *SymMsg) { m.Keys = nil; m.touch() })
+	case "acc-quiet":
+		return each("acc", func(m *SymMsg) { m.delKey(a.Target) })
 	case "pts-short":
 		return each("points", func(m *SymMsg) { m.G2 = m.G2[:len(m.G2)-1]; m.touch() })
 	case "pts-long":
@@ -272,6 +276,8 @@ func (r *runner) apply(a Attack, c int, msgs []SymMsg) []SymMsg {
 		})
 	case "rev-none":
 		return each("reveal", func(m *SymMsg) { m.Keys = nil; m.touch() })
+	case "rev-wrong-for":
+		return each("reveal", func(m *SymMsg) { m.setKey(a.Target, r.reg.fresh()) })
 	}
 	r.notes = append(r.notes, "unknown attack "+a.Name)
 	return msgs
